@@ -1,5 +1,6 @@
 import GrassProofs.Lemmas.CalcFns
 import GrassProofs.Lemmas.CalcParse2
+import GrassProofs.Lemmas.CalcParse3
 /-
   C16 — calc()/min()/max()/clamp() simplification preserves the computed value.
 
@@ -426,13 +427,19 @@ theorem C16_asFound_unitless_accepted :
 /-! ### printing and re-reading -/
 
 /-- **print_reparse_preserves_value**: the token sequence `write_calculation_arg` emits, with its
-    parenthesisation rules, read back by the CSS grammar (`pSum`: `*`,`/` bind tighter than `+`,`-`, all
-    left-associative) denotes the same quantity as the tree that was printed — for every tree, not only
-    for simplifier outputs.  `f` is a fuel bound of the reader; any larger fuel gives the same tree. -/
+    parenthesisation rules (`parenthesize_calculation_rhs`, the left-operand rule, parentheses around
+    interpolation), read back by the CSS grammar (`parseToks`: `*`,`/` bind tighter than `+`,`-`, all
+    left-associative, fuel `4·|tokens| + 3`) denotes the same quantity as the tree that was printed —
+    for every well-formed tree and every environment, not only for simplifier outputs. -/
 theorem C16_print_parse_value (a : CalcArg) (hwf : a.wf = true) :
-    ∃ a' f, (∀ g, f ≤ g → pSum g (pr a) = some (a', [])) ∧ ∀ ρ, evalCalc ρ a' = evalCalc ρ a := by
+    ∃ a', parseToks (pr a) = some a' ∧ ∀ ρ, evalCalc ρ a' = evalCalc ρ a := by
   obtain ⟨a', f, he, hp⟩ := print_parse_exists a hwf
-  exact ⟨a', f, hp, he⟩
+  exact ⟨a', parseToks_of_fuel _ f a' (hp f (Nat.le_refl f)), he⟩
+
+/-- the reader is insensitive to extra fuel, and `4·|tokens| + 3` is enough whenever any fuel is. -/
+theorem C16_parse_fuel_sufficient (ts : List Tok) (f : Nat) (a : CalcArg) (h : pSum f ts = some (a, [])) :
+    parseToks ts = some a ∧ ∀ g, f ≤ g → pSum g ts = some (a, []) :=
+  ⟨parseToks_of_fuel ts f a h, fun _ hg => (mono_le hg).2.2.2.2.1 _ _ h⟩
 
 example : parseToks (pr (.operation (.number 1 (CUnit.single .px)) .minus
       (.operation (.number 2 (CUnit.single .em)) .minus (.number 3 (CUnit.single .vw))))) =
@@ -442,5 +449,17 @@ example : parseToks (pr (.operation (.number 1 (CUnit.single .px)) .plus
       (.operation (.number 2 (CUnit.single .em)) .minus (.number 3 (CUnit.single .vw))))) =
     some (.operation (.operation (.number 1 (CUnit.single .px)) .plus (.number 2 (CUnit.single .em))) .minus
       (.number 3 (CUnit.single .vw))) := by decide +kernel
+
+/-
+  Outside the model (tested by the correspondence, not proved):
+    * f64 arithmetic and the 10-digit printing (the model is exact; the check bounds the error);
+    * units other than px in cm mm pt em rem vw % deg turn s ms (q, pc, rad/grad with π, Hz, dpi, …, unknown units);
+    * opaque operands are values: `var()`/interpolation text is not re-tokenised (an argument list
+      containing `#{}` at depth 0 is one string for grass; the check compares it with the textual
+      substitution);
+    * division by zero: the model stops with `nonFinite`, grass continues with IEEE ±Infinity/NaN
+      (and prints `Infinitypx` / `NaN`); the theorems speak about `ok` results only;
+    * `@supports` declarations (`simplify = false`) and `as_slash` numbers.
+-/
 
 end Grass.Calc
